@@ -16,7 +16,7 @@ from pbt.snap import snapshot, snap_equal, snap_diff, same
 LEVEL = "fault_enumeration"
 LEVEL_TEXT = (
     "Fault enumeration by property-based generation: histories of valid public operations on 1-D / N-D, adaptive / fixed, "
-    "int / float histograms with invalid calls from a fixed catalogue (the FAULTS list in pbt/props/c18.py, 35 kinds) injected at generated positions. "
+    "int / float histograms with invalid calls from a fixed catalogue (the FAULTS list in pbt/props/c18.py, 38 kinds) injected at generated positions. "
     "After every step the shape/sign invariants are checked; after every call that raised, the map bin-interval -> "
     "(content, squared error) and the missed counters must be exactly what they were. Every catalogue entry is "
     "exercised in every run (coverage.classes lists the counts); no claim of absence beyond the explored histories."
